@@ -1136,7 +1136,7 @@ func (fc *FuncCtx) execGo(fr *Frame, st *State, x *ssa.Go) {
 	}
 	keys := map[string]bool{}
 	for k := range ms.keys {
-		if strings.HasPrefix(k, "CH!") || strings.HasPrefix(k, "L!") || fc.eng.monitorProtected(k) {
+		if k == "CH" || k == "L" || k == "ONCE" || strings.HasPrefix(k, "CH!") || strings.HasPrefix(k, "L!") || fc.eng.monitorProtected(k) {
 			continue
 		}
 		keys[k] = true
@@ -1352,93 +1352,7 @@ func (fc *FuncCtx) tryEvalBool(ev *Env, e Expr) (g string, ok bool) {
 //  - the elements of slices / entries of maps reachable in the same way; ghost state attached to those types;
 // and, if it is handed a function value, anything (that function may be ours).
 func (fc *FuncCtx) havocExternal(st *State, c *ssa.CallCommon) {
-	types_ := map[string]bool{}  // type keys of objects that may be written
-	elems := map[string]bool{}   // element type keys
-	maps_ := map[string]bool{}
-	ghostOwners := map[string]bool{}
-	anything := false
-	var walk func(t types.Type, depth int)
-	seen := map[string]bool{}
-	walk = func(t types.Type, depth int) {
-		if depth > 4 || t == nil {
-			return
-		}
-		k := typeKey(t)
-		if seen[k] {
-			return
-		}
-		seen[k] = true
-		if n, ok := t.(*types.Named); ok {
-			ghostOwners[shortTypeName(n)] = true
-			if n.Obj().Pkg() != nil {
-				ghostOwners[n.Obj().Pkg().Path()+"."+n.Obj().Name()] = true
-			}
-		}
-		switch u := t.Underlying().(type) {
-		case *types.Pointer:
-			types_[typeKey(u.Elem())] = true
-			walk(u.Elem(), depth+1)
-		case *types.Slice:
-			elems[typeKey(u.Elem())] = true
-			walk(u.Elem(), depth+1)
-		case *types.Array:
-			elems[typeKey(u.Elem())] = true
-			walk(u.Elem(), depth+1)
-		case *types.Map:
-			maps_[typeKey(u.Key())+"!"+typeKey(u.Elem())] = true
-			walk(u.Key(), depth+1)
-			walk(u.Elem(), depth+1)
-		case *types.Chan:
-			walk(u.Elem(), depth+1)
-		case *types.Struct:
-			types_[typeKey(t)] = true
-			for i := 0; i < u.NumFields(); i++ {
-				walk(u.Field(i).Type(), depth+1)
-			}
-		case *types.Signature:
-			// a function value handed over directly may be one of ours; function-typed fields of the structures it
-			// can reach are not followed (listed assumption)
-			if depth == 0 {
-				anything = true
-			}
-		case *types.Interface:
-			if u.NumMethods() == 0 {
-				// interface{}: dynamic type unknown unless it was converted at this call (handled by the caller)
-				return
-			}
-			// in-repo types implementing it may have their methods called (only for interfaces handed over directly:
-			// following interface-typed fields of those types further would reach nearly every type)
-			if depth > 0 {
-				return
-			}
-			for _, nt := range fc.eng.repoNamedTypes() {
-				if types.Implements(nt, u) || types.Implements(types.NewPointer(nt), u) {
-					types_[typeKey(nt)] = true
-					walk(nt, depth+1)
-				}
-			}
-		}
-	}
-	visit := func(v ssa.Value) {
-		if mi, ok := v.(*ssa.MakeInterface); ok {
-			walk(mi.X.Type(), 0)
-			return
-		}
-		if _, isEmpty := v.Type().Underlying().(*types.Interface); isEmpty && v.Type().Underlying().(*types.Interface).NumMethods() == 0 {
-			// an interface{} value of unknown dynamic type
-			if _, isConst := v.(*ssa.Const); !isConst {
-				anything = true
-			}
-			return
-		}
-		walk(v.Type(), 0)
-	}
-	for _, a := range c.Args {
-		visit(a)
-	}
-	if c.IsInvoke() {
-		visit(c.Value)
-	}
+	types_, elems, maps_, ghostOwners, anything := fc.eng.externalWriteSet(c)
 	if os.Getenv("SFDEBUG") != "" {
 		_, full := calleeNames(c)
 		fmt.Fprintf(os.Stderr, "havocExternal %s anything=%v types=%v\n", full, anything, sortedKeys(types_))
